@@ -16,7 +16,7 @@ KAPPA_MAX = 1e4
 RULE = ("SPD systems (Gram + shift, random sparse pattern; solver CG) and strictly row-diagonally-dominant nonsymmetric systems (random pattern "
         "and signs; solvers BiCG itol 1/2, BiCGSTAB, QMR) of order 1..60 (quick: 1..40), condition (2-norm for SPD, Gershgorin proxy for SDD) <= 1e4, "
         "any triplet order; right-hand sides plain / scaled by 2^-30..2^30 / zero; guesses zero / random / exact; tol 1e-3..1e-12; budget 20n+100. "
-        "Demanded: Ok within 3n+10 iterations (mixed-sign diagonals: within the budget 20n+100), x finite, ||x - x_direct|| <= 100*tol*kappa*||x_direct|| -- only where attainable in f64 "
+        "Demanded: Ok within 3n+10 iterations (mixed-sign diagonals: within the budget 20n+100), x finite, ||x - x_direct|| <= 2*tol*kappa*||x_direct|| -- only where attainable in f64 "
         "(tol >= 10*n*2^-52*kappa; with b = 0: tol >= 1e-13*||A||*||x0||). Exact guess (float residual exactly 0) and zero rhs + zero guess: Ok(0), x untouched. "
         "Systems of order <= 12 also go through the correspondence check. distinct = distinct executor line; non-trivial = order >= 2.")
 TRUSTED = ["Coq 8.16.1 kernel + vm_compute (primitive floats)", "Rust executor /verif/harness (kinds it.*)",
@@ -152,13 +152,13 @@ def oracle(case, items):
     k2 = float(np.linalg.cond(A, 2))
     kk = max(kap, k2)
     if nb != 0.0:
-        lim = 100 * tol * kk * nxd + 1e-12 * kk * nxd
+        lim = 2 * tol * kk * nxd + 1e-12 * kk * nxd       # ||x - x*|| <= kappa ||r|| / ||b|| ||x*||, accepted r <= tol ||b||; factor 2 + 1e-12 kappa for the drift of the recursive residual
     else:
-        lim = 100 * tol * float(np.linalg.norm(np.linalg.inv(A), 2))          # absolute tolerance when b = 0
+        lim = 2 * tol * float(np.linalg.norm(np.linalg.inv(A), 2))          # absolute tolerance when b = 0
     if nxd > 0 and nb != 0.0:
         STATS["max_err_over_tol_kappa"] = max(STATS["max_err_over_tol_kappa"], err / (tol * kk * nxd))
     if err > lim:
-        return "Ok(%d) but ||x - x_direct|| = %.3e exceeds 100*tol*kappa*||x_direct|| = %.3e (tol %.0e, kappa %.3g)" % (a.k, err, lim, tol, kk)
+        return "Ok(%d) but ||x - x_direct|| = %.3e exceeds 2*tol*kappa*||x_direct|| = %.3e (tol %.0e, kappa %.3g)" % (a.k, err, lim, tol, kk)
     return None
 
 def finding_key(case, desc, decoded):
